@@ -180,6 +180,8 @@ pub struct InstallerWeights {
     pub cancel_progress_permille: u32,
     /// two progress reports are in flight at once (two workers of one installer)
     pub concurrent_progress_permille: u32,
+    /// the installer goes from one progress report to the next without waiting for anything
+    pub step_nowait_permille: u32,
 }
 
 impl Default for InstallerWeights {
@@ -192,6 +194,7 @@ impl Default for InstallerWeights {
             plan_id_fresh_permille: 200,
             cancel_progress_permille: 0,
             concurrent_progress_permille: 0,
+            step_nowait_permille: 0,
         }
     }
 }
@@ -305,12 +308,16 @@ pub struct Profile {
     pub dup_app_permille: u32,
     /// the neighbour task, holding the app-set lock, changes an app's cohort hint
     pub neighbour_mutates_permille: u32,
+    /// ... and its version
+    pub neighbour_bumps_version: bool,
     /// a control client makes all its requests through one handle object (no clone per request)
     pub sticky_handle_permille: u32,
     /// a control client abandons a request right after starting it
     pub abandon_request_permille: u32,
     /// the observer takes the lock of the shared storage while handling an event
     pub observer_reads_storage_permille: u32,
+    /// a timer whose deadline is already reached is ready at its first poll
+    pub timer_immediate_permille: u32,
 }
 
 impl Profile {
@@ -358,9 +365,11 @@ impl Profile {
             neighbour_permille: 0,
             dup_app_permille: 0,
             neighbour_mutates_permille: 0,
+            neighbour_bumps_version: false,
             sticky_handle_permille: 0,
             abandon_request_permille: 0,
             observer_reads_storage_permille: 0,
+            timer_immediate_permille: 0,
         }
     }
 }
